@@ -803,6 +803,68 @@ def invalid_subset_family():
             fail("invalid_subset(switch): an address no branch traces is not reported", order=order)
 
 
+def derived_family():
+    """C38: propose / importance / Trace.update / Trace.edit / Trace.project against the primitive GFI methods; EmptyRequest
+    (identity on unchanged arguments, an empty Update otherwise - return-value change tag included); StaticRequest (addressed
+    sites get their sub-request, all others an EmptyRequest) against the equivalent Update"""
+    from genjax._src.core.generative.requests import EmptyRequest
+    from genjax._src.generative_functions.static import StaticRequest
+
+    @gen
+    def callee(loc):
+        eps = normal(0.0, 1.0) @ "eps"
+        return loc + eps
+
+    @gen
+    def model(a):
+        x = normal(a, 1.0) @ "x"
+        y = callee(x) @ "y"
+        z = normal(y, 0.5) @ "z"
+        return z
+    key = jrand.key(4)
+    tr = model.simulate(key, (0.3,))
+    ch, sc, rv = model.propose(key, (0.3,))
+    if not (close(sc, tr.get_score()) and close(rv, tr.get_retval()) and close(ch["x"], tr.get_choices()["x"])):
+        fail("propose is not (choices, score, retval) of simulate with the same key")
+    c = C.kw(x=0.7)
+    t1, w1 = model.importance(key, c, (0.3,))
+    t2, w2 = model.generate(key, c, (0.3,))
+    if not (close(w1, w2) and close(t1.get_score(), t2.get_score())):
+        fail("importance differs from generate")
+    same = lambda a, b: (close(a[0].get_score(), b[0].get_score()) and close(a[1], b[1]) and close(a[0].get_args()[0], b[0].get_args()[0])
+                         and all(close(p, q) for p, q in zip(jax.tree_util.tree_leaves(a[0].get_choices()), jax.tree_util.tree_leaves(b[0].get_choices())))
+                         and Diff.static_check_no_change(a[2]) == Diff.static_check_no_change(b[2]))
+    for ad in (Diff.no_change((0.3,)), Diff.unknown_change((1.1,))):
+        for req in (Update(c), Regenerate(S.at["z"]), Update(C.empty())):
+            a = tr.edit(key, req, ad)
+            b = model.edit(key, tr, req, ad)
+            if not same(a, b):
+                fail("Trace.edit(key, request, argdiffs) differs from gen_fn.edit(key, trace, request, argdiffs)", request=type(req).__name__,
+                     changed=not Diff.static_check_no_change(ad), w=a[1], want=b[1], score=a[0].get_score(), want_score=b[0].get_score())
+        a = tr.update(key, c, ad)
+        b = model.edit(key, tr, Update(c), ad)
+        if not same(a, b):
+            fail("Trace.update differs from gen_fn.edit with Update", changed=not Diff.static_check_no_change(ad))
+    if not close(tr.project(key, S.at["x"]), model.project(key, tr, S.at["x"])):
+        fail("Trace.project differs from gen_fn.project")
+    e = EmptyRequest().edit(key, tr, Diff.no_change((0.3,)))
+    if not (close(e[1], 0.0) and close(e[0].get_score(), tr.get_score()) and Diff.static_check_no_change(e[2])):
+        fail("EmptyRequest on unchanged arguments is not the identity with weight 0")
+    for target, args0, args1 in ((model, (0.3,), (1.1,)), (callee, (0.2,), (0.9,))):
+        t0 = target.simulate(key, args0)
+        e = EmptyRequest().edit(key, t0, Diff.unknown_change(args1))
+        u = Update(C.empty()).edit(key, t0, Diff.unknown_change(args1))
+        if not same(e, u) or not close(Diff.tree_primal(e[2]), Diff.tree_primal(u[2])):
+            fail("EmptyRequest on changed arguments differs from an empty Update (trace, weight or return-value change tag)",
+                 target=target.__class__.__name__, w=e[1], want=u[1], tag=Diff.static_check_no_change(e[2]), want_tag=Diff.static_check_no_change(u[2]))
+    sr = StaticRequest({"x": Update(C.choice(0.9))})
+    a = sr.edit(key, tr, Diff.no_change((0.3,)))
+    b = model.edit(key, tr, Update(C.kw(x=0.9)), Diff.no_change((0.3,)))
+    if not same(a, b):
+        fail("StaticRequest{x: Update} differs from the equivalent Update (unaddressed sites downstream of the change)", w=a[1], want=b[1],
+             score=a[0].get_score(), want_score=b[0].get_score())
+
+
 def stateful_family():
     """C36: a handler that handles nothing is transparent - same values AND dtypes as ordinary evaluation for programs with
     cond / scan / while, Python-scalar arguments meeting narrow dtypes, closed-over constants, and an unhandled initial-style
@@ -1387,7 +1449,7 @@ def selection_family():
 FAMILIES = [
     (("C19.Mask.", "Mask._or_idx"), mask_algebra_family), (("C18.",), selection_family), ((".Diff.",), diff_family),
     (("C29.", "TailCallADEVPrimitive"), adev_family), (("C28.", "sample_momenta"), hmc_family), (("C20.", "FlagOp", "multi_switch", "tree_choose"), staging_family), (("C33.",), invalid_subset_family),
-    (("C36.",), stateful_family), (("C09.", "incremental"), incremental_family), (("C04.",), key_family), (("C21.",), pytree_family), (("C25.", "Marginal"), marginal_family), (("C27.", "Rejuvenate"), rejuvenate_family), (("C31.",), time_travel_family), (("C17.",), choice_map_family), (("C26.",), smc_family),
+    (("C38.",), derived_family), (("C36.",), stateful_family), (("C09.", "incremental"), incremental_family), (("C04.",), key_family), (("C21.",), pytree_family), (("C25.", "Marginal"), marginal_family), (("C27.", "Rejuvenate"), rejuvenate_family), (("C31.",), time_travel_family), (("C17.",), choice_map_family), (("C26.",), smc_family),
     (("MaskCombinator", "MaskTrace"), mask_family), (("Distribution", "ExactDensity", "C24."), distribution_family),
     (("Dimap",), dimap_family), (("Switch",), switch_family), (("Vmap", "repeat"), vmap_family),
     (("Scan", "iterate", "accumulate", "reduce", "masked_iterate"), scan_family),
